@@ -51,3 +51,20 @@ func crossDistribute(r *Run, rng *Rng, quick, thorough int) {
 		r.Count("cross.distribute")
 	}
 }
+
+// A copy command counts as complete when it is dequeued (that wakes DrainCommandQueue). "Drain
+// returns only after all earlier commands have completed" (C12) and "the application reads the same
+// data whatever the host schedule" (C05) both need the host buffer of a device-to-host copy to be
+// filled BEFORE that moment; C11's oracles check it on both copy paths.
+func init() {
+	f := func(r *Run, rng *Rng, _ string) {
+		r.OracleOnly = true
+		defer func() { r.OracleOnly = false }()
+		c11EmuCompleteAfterData(r, rng)
+		for i := 0; i < 40; i++ {
+			c11FlushScenario(r, rng)
+		}
+	}
+	register("C12", f)
+	register("C05", f)
+}
